@@ -9,6 +9,7 @@ that equal versions mean equal stat and different versions different stat — th
 "(len, mtime) determines the content"."""
 import copy, json, os, random, shutil, subprocess, tempfile
 from . import core, e2e, proj, genproj
+hexs_ = core.hexs
 from .props import main_common as mcn
 
 FAULTS = {1: "after_load", 2: "after_cache_removed", 3: "after_ninja_created", 4: "after_configure",
@@ -101,7 +102,7 @@ def execute(laze, h, fresh_check=True):
 # ---------------------------------------------------------------- model request
 def request(h, laze, root, bin_id=1):
     store = [(f, i + 1, docs) for f, vs in h["versions"].items() for i, docs in enumerate(vs)]
-    toks = ["hist", str(len(store))]
+    toks = ["hist", hexs_("build"), str(len(store))]
     for f, v, docs in store:
         toks += [core.hexs(f), str(v)] + proj.lst(docs, proj.doc)
     def vt(t): return [str(len(t))] + [x for f, v in t.items() for x in (core.hexs(f), str(v))]
